@@ -169,7 +169,7 @@ def _run(mod, cid, tier, seed, root, tmp, opts, t0):
                                 % (cid, seed, tier, n))
             with open(path, 'w') as f:
                 json.dump(dict(property=cid, seed=seed, tier=tier, **v), f, indent=1)
-            if v['key'] not in shown or len(shown) < 5:
+            if v['key'] not in shown and len(shown) < 12:
                 print('VIOLATION property=%s replay=%s key=%s :: %s'
                       % (cid, path, v['key'], str(v['what'])[:300]))
             shown.add(v['key'])
